@@ -69,7 +69,7 @@ def long_seeds():
 
 
 LAMBDA_ARGS = ['v => v', 'v => 1', '(a, b) => a', 'v => [v]', '(a, b) => {"k": a}']
-REDUCED3 = ['none', 'd1', 'sab', 'sattr', 'sfmt', 'l12', 'lt', 'da', 'dn', 't', 'true', 's12', 'lab', 'sre']
+REDUCED3 = ['sab', 'd1', 'l12', 'sre', 'da', 'none', 'sattr', 'sfmt', 'lt', 'dn', 't', 'true', 's12', 'lab']   # in order of preference
 
 
 def coarse(v):
@@ -292,9 +292,12 @@ def work(task):
             for text in (name, f'x = {name}; x', f'{name}()', f'[{name}]', f'map([1], {name})', f'{{"k": {name}}}'):
                 run_program(res, text, {}, [name])
             for fa in firsts:
-                nm = {'a0': sd[fa], 'a1': sd['sab']}
+                nm = {'a0': sd[fa], 'a1': sd['sab'], '%a0%': sd[fa]}
                 for text in (f'{name}(a0)', f'a0.{name}()', f'a0 | {name}', f'a0.{name}(a1)', f'a0 | {name}(a1)', f'{name}(a0, a1)',
-                             f'a0.{name}(a1, a0)', f'map([a0], {name})', f'map([a0], v => v.{name}())'):
+                             f'a0.{name}(a1, a0)', f'map([a0], {name})', f'map([a0], v => v.{name}())',
+                             # %...% names that spell an attribute path from a bound name
+                             f'%a0.{name}%', f'x = %a0.{name}%; x', f'%a0.{name}%()', f'%a0.{name}.__class__%', f'%a0[{name}]%',
+                             f'%a0.0.{name}%', f'%a0.a.{name}%'):
                     run_program(res, text, nm, [name, fa])
             res.count('foreign_names')
         return res
@@ -412,7 +415,7 @@ def main(tier, seed, t0):
             tasks.append(('fn', f, 0, pool, None, 'full')) if rounds == 1 else None
             tasks.append(('fn', f, 1, pool, fresh, 'full'))
             tasks.append(('fn', f, 2, pool, fresh, 'full' if rounds == 1 else 'lam'))
-            small = [p for p in pool if p[0] in REDUCED3][:b['ARITY3']] + ([p for p in pool if fresh and p[0] in fresh][:6])
+            small = [p for name in REDUCED3 for p in pool if p[0] == name][:b['ARITY3']] + ([p for p in pool if fresh and p[0] in fresh][:6])
             tasks.append(('fn', f, 3, small, fresh, 'lam' if rounds == 1 else 'nolam'))
         tasks.append(('ops', pool, fresh))
         if rounds == 1:
